@@ -2,8 +2,9 @@
 package c06
 
 import (
-	"errors"
 	"bytes"
+	crand "crypto/rand"
+	"errors"
 	"fmt"
 	"os"
 	"path/filepath"
@@ -249,6 +250,61 @@ func TestProp_Tokens(t *testing.T) {
 					x.status = "used"
 				} else if rawTok(x.id) == nil && x.status == "outstanding" {
 					x.status = "used" // consumed (e.g. tampered but still loadable)
+				}
+			},
+			"forge-from-storage": func(t *rapid.T) {
+				// somebody who can READ the token's stored record tries to build a working
+				// token out of it: what the server persists must not be enough
+				x := pickTok(t, func(x *tok) bool { return x.status == "outstanding" && x.corrupt == "" && x.extended == "" })
+				if x == nil {
+					t.Skip()
+				}
+				raw := rawTok(x.id)
+				if raw == nil {
+					t.Skip()
+				}
+				var parts [][]byte
+				if dec, derr := base58.FastBase58Decoding(x.id); derr == nil {
+					parts = append(parts, dec)
+					if len(dec) >= 32 {
+						parts = append(parts, dec[:32], dec[len(dec)-32:])
+					}
+				}
+				parts = append(parts, []byte(x.id), raw.CreationTimeMarshaled)
+				nonce := parts[rapid.IntRange(0, len(parts)-1).Draw(t, "nonceFrom")]
+				var key []byte
+				switch rapid.IntRange(0, 2).Draw(t, "hmacKeyFrom") {
+				case 0:
+					key = make([]byte, 32)
+					_, _ = crand.Read(key)
+				case 1:
+					key = parts[rapid.IntRange(0, len(parts)-1).Draw(t, "keyFrom")]
+				default:
+					key = []byte{1}
+				}
+				forged, _ := proto.Marshal(&types.ServerLedActivationTokenNonce{Nonce: nonce, HmacKeyBytes: key})
+				a := vkit.NewActor("forger")
+				info := a.Info()
+				info.Nonce = forged
+				req := vkit.Sign(info, a.CertPriv)
+				before := nodeSnap()
+				var resp *types.FetchNodeCredentialsResponse
+				var err error
+				pv, _ := vkit.Guard(func() { resp, err = registration.FetchNodeCredentials(w.Ctx, w.Store, req, w.O()...) })
+				got := pv == nil && err == nil && resp != nil && len(resp.EncryptedNodeCredentials) > 0
+				hist = append(hist, fmt.Sprintf("forge-from-storage[nonce %d bytes taken from the stored record, key %d bytes] -> %v", len(nonce), len(key), got))
+				flags["forge-from-storage"] = true
+				detail := map[string]any{"history": hist, "storage_wrapper": wrapper, "backend": backend.String()}
+				if got {
+					vkit.Violate(t, prop, "C06/token-reconstructed-from-storage", "a token assembled from nothing but the stored token record enrolled a node", detail)
+					return
+				}
+				if d := vkit.DiffSnap(before, nodeSnap()); d != "" {
+					vkit.Violate(t, prop, "C06/failed-use-changed-node-records", d, detail)
+				}
+				if rawTok(x.id) == nil {
+					vkit.Violate(t, prop, "C06/forged-token-consumed-the-genuine-record", "a forged token was refused but the genuine token's record is gone", detail)
+					x.status = "removed"
 				}
 			},
 			"age": func(t *rapid.T) {
